@@ -16,6 +16,7 @@ from translate import c06_vmf as T
 from translate import c06_prog as P
 from translate import c06_lite as L
 from translate import c06_ids as IDS
+from translate import c06_alias as AL
 from translate import c01_kvser
 
 MANIFEST = dict(
@@ -29,9 +30,12 @@ MANIFEST = dict(
               'manager attribute of a VMF gets with and without preserve_ids, the get_id method of each class executed symbolically into a '
               'decision list over the requested ID), the containment edges of the object graph (which attribute of which class holds child '
               'objects of which class, from the parse methods), the loops over set-typed attributes in the export methods, and the slot / '
-              'marker / axis tables of 2D viewports; vm_compute correspondence of the '
+              'marker / axis tables of 2D viewports; since round 5 the constructors and makers of a map (VMF.__init__, VMF.parse) executed '
+              'symbolically over abstract object identities: the alias pairs the constructor establishes (VMF.brushes is VMF.spawn.solids) and the '
+              'reference expression both access paths hold at every return, plus a census of the statements that rebind those attributes; '
+              'vm_compute correspondence of the '
               'escape/scanner/rounding/output/fixup/number-group-text/ID-manager/viewport models; round-trip search on real VMF objects',
-    text='Theorems in Props/C06.v (70): the tokenizer\'s quoted-string scanner inverts escape_text for every string in both modes; '
+    text='Theorems in Props/C06.v (78): the tokenizer\'s quoted-string scanner inverts escape_text for every string in both modes; '
          'every keyvalue line whose interpolations are escaped strings, numbers or plain literals re-reads as its field values (a raw '
          'string field does not); for every generated export program that passes prog_ok, every environment and call depth, the text '
          'written parses -- C01 tokenizer and Keyvalues.parse model -- to exactly the tree of keys, values and child blocks the writer '
@@ -53,11 +57,23 @@ MANIFEST = dict(
          'attributes are exported and filled, and the field codecs invert -- hence the second export equals the first; membership lines '
          'written in sorted order do not depend on the iteration order of the set; the planar axis and both coordinates of a 2D viewport '
          'survive when the coordinates are not marker values; c06_property states all of it over arbitrary generated objects with the '
-         'obligations as visible hypotheses. '
-         '209 instance obligations (315 obligations in total with theorems, correspondences, translators, ties) are regenerated '
+         'obligations as visible hypotheses. Round 5: the enumeration of worlds (which objects are truthy, which opaque conditions hold) over the '
+         'atoms of two reference expressions is a sound and complete decision procedure for "both access paths hold the same object"; when '
+         'it passes, what is appended through VMF.brushes is in the list export() reads (x or [], list(x), slices, comprehensions refuted); '
+         'c06_property_with_histories adds that to c06_property for every maker of a map; a row reader that looks keys up in a table of '
+         '2**4 names does not know row16. '
+         '213 instance obligations (329 obligations in total with theorems, correspondences, translators, ties) are regenerated '
          'from vmf.py / math.py and kernel-checked on every run. The search builds maps through the public API (all object kinds, options '
          'minimal/disp_multiblend/preserve_ids, ID schemes from 0 / sparse / huge / repeated on the objects or in the parsed text, every '
-         'tests/*.vmf) and checks text fixed point and field-by-field equality with the stated tolerances; every round trip runs under an alarm.',
+         'tests/*.vmf) and checks text fixed point and field-by-field equality with the stated tolerances; every round trip runs under an alarm. '
+         'Round 5: edit-after-parse histories: a map is built, exported and parsed; the containers the API can add to (world brushes, entities, '
+         'visgroups, groups, cameras, cordons; outputs, fixups and solids of an entity) are mostly EMPTY in the parsed map; content is added through '
+         'every public adder (add_brush / add_brushes / VMF.brushes.append, add_ent / add_ents / create_ent, vis_tree.append / create_visgroup, '
+         'constructors that register themselves, add_out, fixup[], Entity.solids.append) and removed (remove_brush, Solid.remove, remove_ent); the '
+         'edited parsed map must export the same text as the built map that got the same edits, and must round-trip; world brushes are observed '
+         'through VMF.brushes (the public view), not through spawn.solids. Every round trip also exercises the other public form of the two calls: '
+         'VMF.export(file object) must write what VMF.export() returns, and VMF.parse(<file name>) (cp1251 text file) must give the map '
+         'VMF.parse(<Keyvalues tree>) gives (when the text is cp1251-encodable and holds no bare CR; the generator alphabet holds Cyrillic, (c) and the euro sign for it).',
     note='Partial with respect to the whole-map statement: text -> KeyValues tree is proved for all export methods; tree -> object is '
          'proved per class at the level "which attribute receives which key" (flat: child lists are paired only as exported/parsed '
          'attributes), per array, per output value, per fixup line, per number group; the recursion over child objects is a theorem '
@@ -66,9 +82,11 @@ MANIFEST = dict(
          'seen by the translator and stay search-only; that the blocks of the tree model are the blocks of the write programs is not a '
          'theorem; the allowed_verts array is covered by key pairing and number format only; the reader loops of IDMan.get_id (search for a '
          'free ID) are one opaque "anything else" outcome; ID 0 without preserve_ids is renumbered by IDMan without updating references '
-         '(noted for C08, excluded from the generator); float(token) is outside the token models. Trusted: Coq kernel + vm_compute, translate/c06_vmf.py, c06_prog.py, c06_lite.py, c06_ids.py (key table '
+         '(noted for C08, excluded from the generator); float(token) is outside the token models. Trusted: Coq kernel + vm_compute, translate/c06_vmf.py, c06_prog.py, c06_lite.py, c06_ids.py, c06_alias.py (key table '
          'cross-checked against really exported text, number formats against really exported numbers, on every run), the hand tables '
-         '(field types, number kinds, required precision per field, class -> methods, ARRAY_ATTRS, ALIAS_ATTRS), the C01 KeyValues1 model '
+         '(field types, number kinds, required precision per field, class -> methods, ARRAY_ATTRS; ALIAS_ATTRS is now compared with the alias pairs '
+         'discovered in the constructors), translate/c06_alias.py (symbolic execution over object identities: a call does not rebind attributes of '
+         'existing objects -- checked for the aliased attributes by the rebinding census -- and truthiness does not change inside a maker), the C01 KeyValues1 model '
          '(tied by C01\'s own check), CPython number formatting being correctly rounded and producing no quote/backslash/newline, '
          'str.split/join/strip/int/casefold as modelled. Format limits excluded from the generator (docs/C06.md): keys that look like '
          'replaceNN / id, LF/CR in key names, the separator character inside output fields, fixup names with a space, >99 fixups, '
@@ -99,7 +117,7 @@ def required_class(block: str, key: str, idx: int) -> str:
 
 IMPORTS = ['Coq.NArith.NArith', 'Coq.ZArith.ZArith', 'Coq.Lists.List', 'Coq.Strings.String', 'SV.KV.KvBase', 'SV.Fmt.VmfText',
            'SV.Fmt.VmfBlocks', 'SV.Gen.VmfTemplates_gen', 'SV.Gen.VmfKeys_gen', 'SV.Gen.VmfDispSizes_gen', 'SV.Gen.VmfOrder_gen',
-           'SV.Gen.VmfProg_gen', 'SV.Fmt.VmfFields', 'SV.Gen.VmfFieldsCfg_gen', 'SV.Fmt.VmfNum', 'SV.Gen.VmfNumFmt_gen', 'SV.Fmt.VmfGuard', 'SV.Fmt.VmfLite', 'SV.Gen.VmfLite_gen', 'SV.Fmt.VmfFlags', 'SV.Gen.VmfFlags_gen', 'SV.Fmt.VmfTok', 'SV.Fmt.VmfPlane', 'SV.Fmt.VmfIds', 'SV.Gen.VmfIds_gen', 'SV.Fmt.VmfTree', 'SV.Fmt.VmfSets', 'SV.Gen.VmfSets_gen', 'SV.Fmt.VmfViewport', 'SV.Gen.VmfViewport_gen', 'SV.KV.KvSym', 'SV.Gen.KVSer_gen', 'SV.Props.C06']
+           'SV.Gen.VmfProg_gen', 'SV.Fmt.VmfFields', 'SV.Gen.VmfFieldsCfg_gen', 'SV.Fmt.VmfNum', 'SV.Gen.VmfNumFmt_gen', 'SV.Fmt.VmfGuard', 'SV.Fmt.VmfLite', 'SV.Gen.VmfLite_gen', 'SV.Fmt.VmfFlags', 'SV.Gen.VmfFlags_gen', 'SV.Fmt.VmfTok', 'SV.Fmt.VmfPlane', 'SV.Fmt.VmfIds', 'SV.Gen.VmfIds_gen', 'SV.Fmt.VmfTree', 'SV.Fmt.VmfSets', 'SV.Gen.VmfSets_gen', 'SV.Fmt.VmfViewport', 'SV.Gen.VmfViewport_gen', 'SV.Fmt.VmfAlias', 'SV.Gen.VmfAlias_gen', 'SV.KV.KvSym', 'SV.Gen.KVSer_gen', 'SV.Props.C06']
 PRE = '''Import ListNotations. Open Scope string_scope.
 Fixpoint nl_eqb (a b : list N) : bool := match a, b with [], [] => true | x :: a', y :: b' => N.eqb x y && nl_eqb a' b' | _, _ => false end.
 Fixpoint bad_idx {A} (f : A -> bool) (n : N) (l : list A) : list N := match l with [] => [] | x :: r => (if f x then [] else [n]) ++ bad_idx f (n + 1)%N r end.
@@ -599,6 +617,18 @@ def corr_viewport(ck: Ck) -> None:
             ck.extra[f'{name}_disagreement'] = repr(cases[bad[0]])
 
 
+_T0 = [0.0]
+
+
+def stage(ck: Ck, label: str) -> None:
+    """Wall seconds spent since the previous mark, recorded in the evidence only (extra['stage_seconds']); never used in a verdict."""
+    import time
+    now = time.time()
+    if _T0[0]:
+        ck.extra.setdefault('stage_seconds', {})[label] = round(now - _T0[0], 1)
+    _T0[0] = now
+
+
 def guarded(ck: Ck, name: str, fn: Any, *args: Any) -> None:
     """A correspondence stage calls the implementation on generated inputs; the exceptions it expects are handled inside.  Anything
     else (a fault that makes the implementation raise something unexpected, or loop) is a failing input of that stage, reported as a
@@ -956,6 +986,34 @@ def corpus_specs() -> list[tuple[str, dict]]:
                                                     'group': [0, 2, None], 'vis': [0, 5, 2], 'node': [0, 1, 1]}, True)))
         out.append((f'ids-sparse-renumbered-{route}', id_map({'route': route, 'ent': [17, 7, None], 'solid': [2, 2, None], 'face': [1000000, 1, None],
                                                              'group': [5, 1000, None], 'vis': [2, 2, None], 'node': [3, 3, None]}, False)))
+    # histories (round 5): parse a map in which a container is EMPTY, add to that container through the public API, export, parse.
+    # One specification per container and per public way of adding; with and without preserve_ids.
+    one = {
+        'brushes': [base_solid()], 'entities': [base_ent(logical_pos='[0 1]')], 'visgroups': [{'name': 'v', 'color': [1.0, 2.0, 3.0], 'children': []}],
+        'groups': [dict(grp[0])], 'cameras': [[[1.0, 2.0, 3.0], [4.0, 5.0, 6.0]]],
+        'cordons': [{'name': 'c', 'mins': [0.0, 0.0, 0.0], 'maxs': [5.0, 5.0, 5.0], 'active': True}],
+    }
+    an_out = {'out': 'OnTrigger', 'targ': 't', 'inp': 'Fire', 'param': '', 'delay': 0.0, 'times': -1, 'comma': True, 'inst_out': None, 'inst_in': None}
+    for pres in (True, False):
+        tag = 'ids-kept' if pres else 'renumbered'
+        for api in ({'brush': 'add_brush', 'ent': 'add_ent', 'vis': 'append'}, {'brush': 'add_brushes', 'ent': 'add_ents', 'vis': 'create'},
+                    {'brush': 'append', 'ent': 'create_ent', 'vis': 'append'}):
+            s = mk(f"history-blank-map-then-add-everything-{api['brush']}-{api['ent']}-{tag}",
+                   history={'emptied': list(U.HIST_CONTAINERS), 'edits': dict(copy.deepcopy(one), ent_edits=[]), 'api': api})
+            s['opts'] = dict(s['opts'], preserve_ids=pres)
+        for c in U.HIST_CONTAINERS:
+            # everything else present, only this container empty in the parsed map
+            edits = {k: [] for k in U.HIST_CONTAINERS}
+            edits[c] = copy.deepcopy(one[c])
+            edits['ent_edits'] = []
+            full = {k: copy.deepcopy(v) for k, v in one.items() if k != c}
+            s = mk(f'history-only-{c}-empty-then-add-{tag}', history={'emptied': [c], 'edits': edits, 'api': {}}, **full, **{c: []})
+            s['opts'] = dict(s['opts'], preserve_ids=pres)
+        s = mk(f'history-bare-entity-then-outputs-fixups-solids-{tag}', entities=[base_ent(), base_ent(hidden=True)],
+               history={'emptied': [], 'api': {}, 'edits': {'ent_edits': [
+                   {'index': 0, 'outputs': [dict(an_out)], 'fixups': [['var', 'val']], 'solids': [base_solid()]},
+                   {'index': 1, 'outputs': [dict(an_out, comma=False)], 'fixups': [['other', 'a "b"']], 'solids': [base_solid(hidden=True)]}]}})
+        s['opts'] = dict(s['opts'], preserve_ids=pres)
     return out
 
 
@@ -983,6 +1041,26 @@ def feature_hist(ck: Ck, spec: dict) -> bool:
         'arbitrary_faces': any(s['kind'] == 'faces' for s in solids),
         'nasty_strings': any(any(c in v for c in '"\\\n') for e in ents for v in list(e['keys'].values()) + list(e['keys'])),
     }
+    hist = spec.get('history')
+    if hist:
+        feats['history'] = True
+        for c in hist.get('emptied', ()):
+            if hist['edits'].get(c):
+                ck.hist('history_added_to_empty_container', c)
+        for c in U.HIST_CONTAINERS:
+            if hist['edits'].get(c) and spec[c]:
+                ck.hist('history_added_to_nonempty_container', c)
+        for ed in hist['edits'].get('ent_edits', ()):
+            if ents:
+                e = ents[ed['index'] % len(ents)]
+                for c in U.HIST_ENT_CONTAINERS:
+                    if ed.get(c):
+                        ck.hist('history_added_to_entity', c + (':was-empty' if not e[c] else ':was-filled'))
+        for k, v in sorted((hist.get('api') or {}).items()):
+            ck.hist('history_api', f'{k}:{v}')
+        for k, v in sorted((hist['edits'].get('removals') or {}).items()):
+            if v:
+                ck.hist('history_api', f'remove:{k}')
     ids = spec.get('ids') or {}
     feats['id_scheme'] = bool(ids)
     for kind in U.ID_KINDS:
@@ -993,14 +1071,14 @@ def feature_hist(ck: Ck, spec: dict) -> bool:
     for k, v in feats.items():
         if v:
             ck.hist('features', k)
-    return bool(ents or brs or spec['visgroups'] or spec['cameras'] or spec['cordons'])
+    return bool(ents or brs or spec['visgroups'] or spec['cameras'] or spec['cordons'] or hist)
 
 
 def search(ck: Ck) -> None:
-    # quick: 200 maps (450 until round 3, 240 until round 4; lowered to keep the quick tier below 90 s on a heavily loaded machine now that the proof side
+    # quick: 150 maps + 60 histories since round 5 (200 maps in round 4; 450 until round 3, 240 until round 4; lowered to keep the quick tier below 90 s on a heavily loaded machine now that the proof side
     # has 140 more obligations and four more correspondences; the directed corpus and the shipped files run first in any case);
     # quick with a broken tie: 2000; thorough: 7500
-    n = 7500 if ck.thorough else ck.budget(200, 2000)
+    n = 7500 if ck.thorough else ck.budget(150, 2000)
     found: dict[str, tuple[dict, str, dict]] = {}
     # Shrinking budget, counted in oracle evaluations (not wall time, so that results are reproducible): per violation key
     # and in total.  A fault in a hot path produces dozens of keys on big maps; the total keeps a failing run within minutes.
@@ -1070,9 +1148,21 @@ def search(ck: Ck) -> None:
         if i == 3:
             ck.sample({'generated_spec_excerpt': json.dumps(spec)[:1500]})
         consider(spec, f'random #{i}')
+    # histories (round 5): build -> export -> parse -> edits through the public API -> export -> parse, starting from parsed maps
+    # in which the containers the API adds to are mostly empty; compared with the same edits on the map built through the API
+    n_hist = 2500 if ck.thorough else ck.budget(60, 700)
+    for i in range(n_hist):
+        spec = U.gen_history_spec(ck.rng)
+        ck.count('generated_histories')
+        if feature_hist(ck, spec):
+            ck.seen(('history', i, len(json.dumps(spec))))
+        if i == 1:
+            ck.sample({'generated_history_excerpt': json.dumps(spec['history'])[:1500]})
+        consider(spec, f'history #{i}')
     for key, (spec, what, det) in found.items():
         ck.violation(key, what, {'spec': spec, 'detail': det,
-                                 'how': 'harness.c06_util.check_spec(spec): build through the public API, export, parse, compare, export again'})
+                                 'how': 'harness.c06_util.check_spec(spec): build through the public API, export, parse, compare, export again; with spec["history"]: '
+                                        'build, export, parse, then add spec["history"]["edits"] to the parsed map through the API, compare with the built map that got the same edits, then round trip'})
     ck.extra['violation_keys'] = sorted(found)
 
 
@@ -1094,7 +1184,13 @@ def run(ck: Ck) -> None:
                'optionally wrapping so that numbers repeat -- only with preserve_ids, never for groups, which are keyed by ID) applied to the built '
                'objects or to the exported text that is then parsed. ID-manager requests: -1, negatives, 0, used and free small numbers, huge numbers, '
                'repetitions, on instances that already hold 1..39. Viewport vectors: coordinates from 0, +-65536 and ordinary integers. '
-               'Shipped files: every tests/**/*.vmf x preserve_ids x minimal.')
+               'Shipped files: every tests/**/*.vmf x preserve_ids x minimal. '
+               'Histories (round 5): a base specification in which each of world brushes / entities / visgroups / groups / cameras / cordons is emptied with '
+               'probability 0.6 (and outputs / fixups / solids of each entity with 0.5) is built, exported and parsed; then 1-2 elements per container '
+               '(at least one for every emptied container) are added to the PARSED map through a randomly chosen public adder, entities of the base get '
+               'outputs / fixups / solids, and with probability 0.3 a brush / an entity is removed; non-trivial = always (every history adds something); '
+               'every round trip additionally writes the text into a file object and, when it is cp1251-encodable without bare CR (every other such text: about 22 % of the maps, '
+               '5 % with non-ASCII text), parses it from a file name; distinct by full specification; 21 directed histories (blank map then everything, one container empty at a time, bare entities) run first.')
     ck.trusted.append('hand tables in translate/c06_vmf.py (field types, call graph of export methods, parse roots, vertex arity), '
                       'validated on real objects / really exported text on every run')
     ck.trusted.append('hand-copied ESCAPES table and scanner in rocq/Fmt/VmfText.v (tied by differential correspondence on every run)')
@@ -1106,6 +1202,8 @@ def run(ck: Ck) -> None:
     ck.trusted.append('translate/c06_ids.py: symbolic execution of get_id / VMF.__init__, scan for get_id call sites, for loops over set-typed '
                       'attributes (set-typed = annotated set[...] or assigned set(...)), for the position templates / marker tiers of 2D viewports; '
                       'the hand model of the reader loop of Strata2DViewport.from_vector (vp_choose; tied by correspondence)')
+    ck.trusted.append('translate/c06_alias.py: symbolic execution of the constructors and of the static / class methods that make a map over abstract '
+                      'object identities (every call / display / slice / comprehension is a new object; loops and try are joined with an opaque condition)')
     ck.trusted.append('the C01 KeyValues1 tokenizer/parser model rocq/KV/* (imported read-only; tied to keyvalues.py/tokenizer.py by check C01)')
     ck.assumptions += [
         'CPython float formatting (%.6f, %g, repr) is correctly rounded and its output contains only digits, sign, point, exponent, '
@@ -1115,17 +1213,23 @@ def run(ck: Ck) -> None:
         'families) and covered by the search',
         'IDs a map can carry are natural numbers: -1 is the API\'s "no ID", Entity.parse takes an id key as the ID only when it is all digits; '
         'without preserve_ids IDs are positive and unique (IDMan; 0 would be renumbered without updating references -- C08\'s subject)',
+        'a call made inside VMF.__init__ / VMF.parse does not rebind VMF.brushes / VMF.spawn / Entity.solids of an object that already exists '
+        '(the census gen_alias_rebinds lists every statement of vmf.py that assigns these attribute names: only makers and constructors do), and the '
+        'truthiness of a list does not change between two tests inside one maker',
         'a Python set iterates over its elements in some duplicate-free order (model: any NoDup list); sorted() is a function of the multiset',
         'str.split, str.join, int() on digit strings and str.casefold behave as modelled (split_on, join, parse_digits; casefold enters '
         'the theorems as the section variables is_inst / same_var)',
     ]
-    oks = [ck.translate(name, fn) for name, fn in {**T.GEN, **P.GEN, **L.GEN, **IDS.GEN}.items()]
+    stage(ck, 'start')
+    oks = [ck.translate(name, fn) for name, fn in {**T.GEN, **P.GEN, **L.GEN, **IDS.GEN, **AL.GEN}.items()]
     # C01's generated parser sites (read-only use of C01's translator): premise pcfg_ok of the block theorem
     oks.append(ck.translate('KVSer_gen', c01_kvser.translate))
     tr = ck.extra.get('translated', {})
-    built = all(oks) and ck.build(['Gen/KVSer_gen.vo', 'Gen/VmfIds_gen.vo', 'Gen/VmfSets_gen.vo', 'Gen/VmfViewport_gen.vo', 'Props/C06.vo'])
+    built = all(oks) and ck.build(['Gen/KVSer_gen.vo', 'Gen/VmfIds_gen.vo', 'Gen/VmfSets_gen.vo', 'Gen/VmfViewport_gen.vo', 'Gen/VmfAlias_gen.vo', 'Props/C06.vo'])
+    stage(ck, 'translate+build')
     if built:
         ck.theorems('Props/C06.v')
+        stage(ck, 'print_assumptions')
         obs: dict[str, str] = {}
         for fn in T.EXPORT_FUNCS:
             if fn == 'Output.export':
@@ -1205,6 +1309,18 @@ def run(ck: Ck) -> None:
         obs['parse_hands_preserve_ids_on'] = 'gen_parse_passes_preserve'
         for c, idp in sorted(idm.get('programs', {}).items()):
             ck.hist('id_manager_paths', c, len(idp))
+        # aliases (round 5): for every function that hands out a map and every alias pair the constructor establishes, the two access
+        # paths hold the same object in every world (identity, on every path, the empty case included); the attributes named in a
+        # pair are rebound only where a map is made and in constructors
+        ali = tr.get('VmfAlias_gen', {})
+        for r in ali.get('rows', []):
+            nm = f"alias_identity:{r['fn']}:{r['left']}=={r['right']}"       # one obligation for all returns of the function
+            obs[nm] = (f'forallb row_ok (filter (fun r => andb (String.eqb (ar_left r) "{r["left"]}") (String.eqb (ar_right r) "{r["right"]}")) '
+                       f'(rows_of "{r["fn"]}" gen_alias_rows))')
+            ck.hist('alias_rows', f"{r['fn']}:{r['left']}=={r['right']}:" + ('same expression' if r['same_text'] else 'different expressions'))
+        obs['alias_pairs_established_by_every_maker'] = 'alias_table_ok gen_alias_makers gen_alias_pairs gen_alias_rows'
+        obs['alias_attributes_rebound_only_by_makers_and_constructors'] = (
+            'forallb (fun s => existsb (String.eqb (fst s)) gen_alias_may_rebind) gen_alias_rebinds')
         obs['output_field_count_and_recombination'] = '(Nat.eqb gen_out_exact_fields 5 && Nat.eqb gen_out_recombine_from 6)%bool'
         obs['output_field_order_agrees'] = ('(nlist_eqb gen_out_write_order (0 :: 1 :: 2 :: 3 :: 4 :: nil)%N && nlist_eqb gen_out_read_order (0 :: 1 :: 2 :: 3 :: 4 :: nil)%N)%bool')
         # the hypotheses of the composed statement c06_property hold for what was generated from today's source (the example the
@@ -1213,8 +1329,9 @@ def run(ck: Ck) -> None:
         obs['property_hypotheses_hold_for_todays_source'] = (
             '(table_ok vmf_nums vmf_progs && pcfg_ok gen_parsecfg && forallb lite_paired lite_classes && '
             f'forallb (kind_ok gen_id_classes gen_id_managers gen_id_sites) ({kinds}) && member_loops_ok gen_member_loops && '
-            'vp_ok gen_vp_tiers gen_vp_tbl gen_vp_inv)%bool')
+            'vp_ok gen_vp_tiers gen_vp_tbl gen_vp_inv && alias_table_ok gen_alias_makers gen_alias_pairs gen_alias_rows)%bool')
         res = ck.instance_obligations(IMPORTS, obs, name='c06')
+        stage(ck, 'instance_obligations')
         if not all(res.values()):
             ck.tie_broken.append('instance obligations failed: ' + ', '.join(k for k, v in res.items() if not v))
         # the two extractors (template census of round 1, structured programs of round 2) must see the same written lines
@@ -1225,6 +1342,15 @@ def run(ck: Ck) -> None:
                       f'{sorted(s1 ^ s2)[:4]}')
         if s1 != s2:
             ck.tie_broken.append('program translator and template translator disagree on the written lines')
+        # the alias table the object-level translator uses (c06_lite.ALIAS_ATTRS: attribute -> the attribute whose object it is part of)
+        # must be what the constructors establish today (discovered by symbolic execution, c06_alias.py)
+        disc: dict[str, dict[str, str]] = {}
+        for cname, a, b in ali.get('pairs', []):
+            disc.setdefault(cname, {})[a] = b.split('.')[0]
+        ck.obligation('tie:alias_table_is_what_the_constructors_establish', disc == L.ALIAS_ATTRS,
+                      f'discovered {ali.get("pairs")}, hand table {L.ALIAS_ATTRS}')
+        if disc != L.ALIAS_ATTRS:
+            ck.tie_broken.append('the alias pairs the constructors establish are not the hand table of c06_lite.py')
         guarded(ck, 'escape_scanner', corr_escape, ck)
         guarded(ck, 'rounding', corr_rounding, ck)
         guarded(ck, 'output_fixup', corr_output_fixup, ck)
@@ -1232,12 +1358,15 @@ def run(ck: Ck) -> None:
         guarded(ck, 'plane_text', corr_plane, ck)
         guarded(ck, 'id_manager_programs', corr_ids, ck, tr.get('VmfIds_gen', {}))
         guarded(ck, 'viewport_axis', corr_viewport, ck)
+        stage(ck, 'correspondences')
         try:
             validate_tables(ck, tr.get('VmfTemplates_gen', {}), tr.get('VmfKeys_gen', {}))
         except Exception as e:     # the rich map itself may fail to export when the source is broken: the search reports that
             ck.obligation('tie:tables_validated', False, f'validation map could not be processed: {e!r}')
             ck.tie_broken.append('table validation failed')
+        stage(ck, 'validate_tables')
     search(ck)
+    stage(ck, 'search')
     # Failed obligations are explained by concrete violations of the matching kind.
     keys = [v['key'] for v in ck.violations]
     str_marks = ('KeyValError', '.mat', '.keys', 'fixups', 'logical_pos', '.name', 'comments', 'outputs', ':material', '<key>',
@@ -1300,13 +1429,18 @@ def run(ck: Ck) -> None:
         ck.explain('instance:viewport_axis_tables_agree')
         ck.explain('correspondence:viewport_axis')
         ck.explain('translate:VmfViewport_gen')
+    if any(k.startswith('history:') or k in ('field:solids.len', 'field:world.solids.len') for k in keys):
+        ck.explain('instance:alias_')
+        ck.explain('tie:alias_table')
+        ck.explain('translate:VmfAlias_gen')
     if any(k.startswith('order:entities') or k.startswith('text::') for k in keys):
         ck.explain('instance:entity_blocks_read_in_file_order')
     if any('fixups' in k or 'replaceN' in k for k in keys):
         ck.explain('instance:fixup_index_written_2_read_2')
     # the composite obligation (hypotheses of c06_property) is explained when every failed component of it is
     comp = ('instance:program_ok:', 'instance:programs_all_ok', 'instance:kv_parser_sites_ok', 'instance:fields_paired:',
-            'instance:ids_preserved_when_asked:', 'instance:membership_lines_in_canonical_order:', 'instance:viewport_axis_tables_agree')
+            'instance:ids_preserved_when_asked:', 'instance:membership_lines_in_canonical_order:', 'instance:viewport_axis_tables_agree',
+            'instance:alias_')
     failed = [o for o in ck.obligations if not o['ok'] and o['name'].startswith(comp)]
     if failed and all(o.get('explained') for o in failed):
         ck.explain('instance:property_hypotheses_hold_for_todays_source')
